@@ -208,6 +208,7 @@ func (b *Body) processBlock(blk *ssa.BasicBlock, reach0 *T, st0 State) {
 	}
 	b.reach[blk] = reach
 	b.curBlock = blk
+	b.curState = st
 	for _, in := range blk.Instrs {
 		if _, ok := in.(*ssa.Phi); ok {
 			continue
@@ -405,9 +406,6 @@ func (b *Body) loopMapIter(lp *Loop) *ssa.Range {
 
 func (b *Body) loopInvariants(lp *Loop, kind string, guard *T, st State, phiVal func(*ssa.Phi) *Val) {
 	ft := b.ft
-	if ft.collect {
-		return
-	}
 	invs := b.invariantsOf(lp)
 	if len(invs) == 0 {
 		return
@@ -439,9 +437,6 @@ func (b *Body) loopInvariants(lp *Loop, kind string, guard *T, st State, phiVal 
 
 func (b *Body) assumeInvariants(lp *Loop, reach *T, st State) {
 	ft := b.ft
-	if ft.collect {
-		return
-	}
 	invs := b.invariantsOf(lp)
 	if len(invs) == 0 {
 		return
